@@ -256,6 +256,7 @@ PROPS["C17"] = {
 _hist("C15", [
     {"name": "ta-concurrent", "pkg": RESMGR, "race": True, "run": "^TestVerifC15TA$", "replay_run": "^TestVerifC15TAReplay$", "q": 60, "t": 8000, "per_proc": 250},
     {"name": "balloons-concurrent", "pkg": RESMGR, "race": True, "run": "^TestVerifC15Balloons$", "replay_run": "^TestVerifC15BalloonsReplay$", "q": 60, "t": 8000, "per_proc": 250},
+    {"name": "pod-resources", "pkg": "./pkg/resmgr/cache", "race": True, "run": "^TestVerifC15Fetch$", "replay_run": "^TestVerifC15FetchReplay$", "q": 1500, "t": 240000},
   ],
   "rapid-generated histories with concurrent phases: 2-5 lifecycle lanes (each walks its own new pod through a generated prefix of run/create/start/update/stop/remove/stop-pod/remove-pod), update lanes on distinct existing containers, a configuration update lane and (in phases without lifecycle lanes) a Synchronize, all released at once from separate goroutines with generated scheduler yields; binary built with the Go race detector whose reports are read back after every phase; oracles = no race report, completion (deadlock watchdog), cache membership equals the runtime's, every cached decision was delivered in some reply of the phase, and all invariant libraries of C01-C05/C09 after the phase and after every later sequential request",
   "non-trivial = a phase ran >= 3 lanes and >= 6 requests concurrently",
